@@ -65,6 +65,9 @@ pub fn single_ops(thorough: bool) -> Vec<Op> {
     Buffer(3),
     Materialize,
     MatDemat,
+    DematInBand(2, 3),
+    DematInBand(1, 9),
+    DematInBand(9, 2),
     WindowFlat(1),
     WindowFlat(2),
     WindowFlat(3),
@@ -514,6 +517,20 @@ pub fn eval_case(prop: &str, case: &Case, oracles: &[Oracle], st: &mut Stats, de
             }
           }
         }
+        // unsubscribe called from one of the subscription's own callbacks: nothing may be
+        // delivered once that call has returned - not even the rest of the emission it interrupted
+        for (root, idx) in &real.self_unsub_marks {
+          let base = rec_id(*root);
+          // (the subscriber's own callbacks only: an inner observable of window/group_by that it
+          // subscribed separately is a subscription of its own and still gets the item in flight)
+          if let Some(e) = real.events.iter().skip(*idx).find(|e| e.rec == base) {
+            st.add_finding(
+              format!("{}/delivery-after-unsubscribe-from-a-callback", locus(p)),
+              format!("{} delivered (step {}) after the unsubscribe called from the subscriber's own callback had returned | real: {}", e.ev.show(), e.step, real.show()),
+              case.show(),
+            );
+          }
+        }
         // truth table of Subscription::is_subscribed, from what the subscriber itself saw
         let n_roots = real.root_live.last().map(|l| l.len()).unwrap_or(0);
         for root in 0..n_roots {
@@ -523,6 +540,9 @@ pub fn eval_case(prop: &str, case: &Case, oracles: &[Oracle], st: &mut Stats, de
               ended = true;
             }
             if real.events.iter().any(|e| e.step == step && e.rec == rec_id(root) && e.ev.is_terminal()) {
+              ended = true;
+            }
+            if real.self_unsub_marks.iter().any(|(r, idx)| *r == root && *idx > 0 && real.events.get(*idx - 1).map_or(false, |e| e.step == step)) {
               ended = true;
             }
             if let Some(Some(live)) = real.root_live.get(step).map(|l| l[root]) {
